@@ -20,7 +20,11 @@ class NextRequest(Request, MutableMapping[str, Any]):
 
 def ensure_next(iterable: Iterable[bytes]) -> Iterable[bytes]:
     iterator = iter(iterable)
-    first_chunk = next(iterator)
+    try:
+        first_chunk = next(iterator)
+    except StopIteration:
+        # an application may return an empty iterable (204, 304, HEAD)
+        return iterable
 
     def generator():
         yield first_chunk
